@@ -363,6 +363,9 @@ func sessionMain(s *simrt.Sim, info *harness.RunInfo) {
 		sess, err := store.GetByID(op.targetID)
 		if err != nil {
 			if errors.Is(err, session.ErrSessionIDNotFoundInStore) {
+				if op.delErr {
+					s.Count("probe_getbyid_of_expired_session_could_not_delete_it")
+				}
 				op.obs.Err = "notfound"
 			} else {
 				op.obs.Err = err.Error()
@@ -505,7 +508,8 @@ func sessionMain(s *simrt.Sim, info *harness.RunInfo) {
 			op.route = "store"
 		}
 		if absFocus && s.Chance(700) {
-			op.route = "mw"
+			// (a background job looking the session up by its id is one of the things that keep it busy)
+			op.route = simrt.PickS(s, "mw", "mw", "mw", "byid")
 		}
 		if op.route == "byid" || op.route == "delete" {
 			op.targetID = op.present
@@ -1189,6 +1193,9 @@ func sessionMain(s *simrt.Sim, info *harness.RunInfo) {
 	}
 	if absFocus {
 		thinks = []time.Duration{0, 500 * time.Millisecond, time.Second, idle - 2500*time.Millisecond, idle - 2500*time.Millisecond}
+		if idle >= 3*time.Second {
+			thinks = append(thinks, idle-time.Second, idle-time.Second)
+		}
 	}
 	s.SetPreempt(preempt)
 	if concurrent {
@@ -1196,6 +1203,9 @@ func sessionMain(s *simrt.Sim, info *harness.RunInfo) {
 		for ci := 0; ci < nclients; ci++ {
 			wg.Add(1)
 			n := s.Range(2, harness.Scale(8, 14))
+			if absFocus {
+				n = s.Range(5, harness.Scale(11, 16))
+			}
 			plan := make([]time.Duration, n)
 			for i := range plan {
 				plan[i] = thinks[s.Draw(len(thinks))]
